@@ -526,6 +526,9 @@ pub fn error_chain(e: &assets_manager::Error) -> (Vec<String>, String) {
 pub static OTHER_CACHE: once_cell::sync::OnceCell<assets_manager::AssetCache<Mem>> =
     once_cell::sync::OnceCell::new();
 
+pub static RACE_EXPECTED: AtomicU64 = AtomicU64::new(0);
+pub static RACE_ARRIVED: AtomicU64 = AtomicU64::new(0);
+
 /// The cache under test, for script lines that run on a helper thread.
 pub static CUR_CACHE: std::sync::atomic::AtomicUsize = std::sync::atomic::AtomicUsize::new(0);
 
@@ -642,6 +645,18 @@ pub fn run_line(cache: AnyCache, words: &[&str]) -> Result<i64, BoxedError> {
                 Ok(r) => r,
                 Err(_) => Ok(-9),
             }
+        }
+        ["barrier"] => {
+            // racediff: hold every racer inside its loader until all have missed the cache
+            let expected = RACE_EXPECTED.load(Ordering::SeqCst);
+            RACE_ARRIVED.fetch_add(1, Ordering::SeqCst);
+            let t0 = std::time::Instant::now();
+            while RACE_ARRIVED.load(Ordering::SeqCst) < expected
+                && t0.elapsed() < std::time::Duration::from_millis(200)
+            {
+                std::hint::spin_loop();
+            }
+            Ok(0)
         }
         ["fail"] => Err(Box::new(ScriptFail)),
         ["panic"] => panic!("script said panic"),
